@@ -125,7 +125,16 @@ func rootShape(s *shape, rooted bool) int {
 	return r
 }
 
-func tipName(i int) string { return fmt.Sprintf("t%d", i) }
+func tipName(i int) string {
+	if tipNameStyle == 1 && i < len(caseNames) {
+		return caseNames[i]
+	}
+	return fmt.Sprintf("t%d", i)
+}
+
+// tipNameStyle 1: taxon names that differ by case only (a/A, b/B, ...)
+var tipNameStyle = 0
+var caseNames = []string{"a", "A", "b", "B", "c", "C", "d", "D"}
 
 // buildTree constructs the gotree tree for shape s rooted at node root, in
 // the order the Newick parser creates nodes and branches (ids included).
@@ -214,6 +223,13 @@ func decorate(t *tree.Tree, lenMode int, supMode int) {
 
 // tipLabel maps "t<i>" to i; other names get a label >= 32 via extra.
 func tipLabel(name string, extra map[string]int) int {
+	if tipNameStyle == 1 {
+		for i, c := range caseNames {
+			if c == name {
+				return i
+			}
+		}
+	}
 	if len(name) >= 2 && name[0] == 't' {
 		v := 0
 		for i := 1; i < len(name); i++ {
